@@ -755,6 +755,7 @@ func (s *State) applyExtension(fn object.Extension, args []object.Object) object
 func (s *State) applyFunction(name string, fn object.Object, args []object.Object) object.Object {
 	function, ok := fn.(object.Function)
 	if !ok {
+		fn = object.Value(fn) // (an integer parameter held in a register is an INTEGER)
 		return s.NewError("not a function: " + fn.Type().String() + ":" + fn.Inspect())
 	}
 	if s.rootEnv != nil && s.rootEnv.Generation() != s.cacheGen {
